@@ -79,7 +79,7 @@ class StatusObserver:
 
 def h_submit(shapes=("chain3",), bss=(1, 2), maxns=(None, 1), tas=(True,), time_based=False, G=1, fails=True,
              cancel_flags=True, lost=False, local=False, procs=None, max_steps=60, max_recoveries=None, rcs=(0, 1),
-             hooks=False, est_choices=(1, 5), wall="0:10:00", dry_run=False, hook_rcs=(0,), aliases=None, round_yields=False, user_round=False, double_recovery=False, cpus=4, append_flags=False):
+             hooks=False, est_choices=(1, 5), wall="0:10:00", dry_run=False, hook_rcs=(0,), aliases=None, round_yields=False, user_round=False, double_recovery=False, cpus=4, append_flags=False, squeue_fault=False):
     def harness(ex):
         from world.world import Hang
 
@@ -170,6 +170,19 @@ def h_submit(shapes=("chain3",), bss=(1, 2), maxns=(None, 1), tas=(True,), time_
                     w_.block(("yield", "squeue"))
 
             w.effect_hook = yield_hook
+        if squeue_fault:
+            sq = dict(pid=None, n=0)
+
+            def squeue_policy(w_):  # in one solver-chosen submitter round the status query fails on every retry
+                pid_ = w_.cur.pid
+                if sq["pid"] is None and "submit-jobs" in w_.cur.name and pid_ not in sq.setdefault("asked", set()):
+                    sq["asked"].add(pid_)
+                    if ex.flag("squeue_fails_in_round_%d" % sq["n"]):
+                        sq["pid"] = pid_
+                    sq["n"] += 1
+                return sq["pid"] == pid_
+
+            w.squeue_policy = squeue_policy
         if lost:
             sb_mem = {}
 
@@ -256,13 +269,13 @@ def h_submit(shapes=("chain3",), bss=(1, 2), maxns=(None, 1), tas=(True,), time_
                     ex.check(False, "C01/C03/C05/C09: cluster lock left behind in a fault-free history (submission wedged)")
                     wedged = True
                     break
-                ex.check(len(w.events("sbatch")) > before or c.is_complete(),
+                ex.check(len(w.events("sbatch")) > before or c.is_complete() or squeue_fault,
                          "C05: try-submit-jobs at quiescence neither submitted a batch nor completed the submission",
                          rc=r.rc, err="".join(r.err)[-300:], out="".join(r.out)[-200:])
                 # step clause: after this round a job whose blockers all have outcomes is unsubmitted only at the node limit
                 rows_now = set(w.result_names(out))
                 active_now = sum(1 for b_ in w.batches.values() if b_["state"] in ("PENDING", "RUNNING"))
-                if not c.is_complete() and not lost:
+                if not c.is_complete() and not lost and not squeue_fault:
                     for j_ in c.job_status.jobs:
                         i_ = nm.index(j_.name)
                         if j_.state.value == "not_submitted" and all(nm[b_] in rows_now for b_ in blockers.get(i_, [])) \
@@ -542,7 +555,7 @@ def h_submit(shapes=("chain3",), bss=(1, 2), maxns=(None, 1), tas=(True,), time_
                              env=e["env"])
             ex.check(sorted(got) == sorted(nm), "C16: a lifecycle command prevented results from being recorded", got=sorted(got))
         crashes = w.events("crash")
-        ex.check(not crashes or lost, "C01/C03/C05/C09/C16: a JADE process crashed in a fault-free history",
+        ex.check(not crashes or lost or squeue_fault, "C01/C03/C05/C09/C16: a JADE process crashed in a fault-free history",
                  crashes=[(c_["argv"][:2], c_["error"]) for c_ in crashes][:3])
         ex.check(obs.reads > 0 or local, "C09: status observer never ran")
         ex.note("histories")
